@@ -5,7 +5,9 @@ package weshnet
 import (
 	"context"
 	"fmt"
+	"runtime"
 	"sort"
+	"strings"
 	"sync"
 	"testing"
 	"time"
@@ -188,10 +190,120 @@ func c16ConnScenario(rep *verifkit.Report, ops []c16Op, nwaiters int, withCancel
 	return sc
 }
 
+// c16ConnCancelOneScenario: two waiters on the same group, ONE of them is cancelled (its caller went away) once both are
+// asleep; only after that waiter has returned does the updater run its sequence. The remaining waiter must see every
+// change: whatever the leaving waiter cleans up must not detach the one that stays.
+func c16ConnCancelOneScenario(rep *verifkit.Report, ops []c16Op, plan string) *verifsched.Scenario {
+	m := NewConnectednessManager()
+	peers := []peer.ID{peer.ID("peer-one"), peer.ID("peer-two")}
+	ctxA, cancelA := context.WithCancel(context.Background())
+	ctxB, cancelB := context.WithCancel(context.Background())
+	var mu sync.Mutex
+	gone := false
+	cur2 := PeersConnectedness{}
+	var opNames []string
+	assoc := map[peer.ID]bool{}
+	final := map[peer.ID]ConnectednessType{}
+	for _, o := range ops {
+		opNames = append(opNames, o.String())
+		if o.assoc {
+			assoc[peers[o.peer]] = true
+		} else {
+			final[peers[o.peer]] = o.status
+		}
+	}
+	wit := func(extra map[string]interface{}) map[string]interface{} {
+		w := map[string]interface{}{"scenario": "two waiters, one cancelled before the updates", "updater_sequence": opNames, "plan": plan}
+		for k, v := range extra {
+			w[k] = v
+		}
+		return w
+	}
+	asleep := func(role string) bool {
+		for _, g := range verifsched.Goroutines() {
+			if g.Role != role || g.State != "select" {
+				continue
+			}
+			for _, f := range g.Frames {
+				if strings.Contains(f, "notify.(*Notify).Wait") {
+					return true
+				}
+			}
+		}
+		return false
+	}
+	sc := &verifsched.Scenario{Name: "cancel-one/" + fmt.Sprint(opNames), Roles: map[string]func(){}, Finite: []string{"updater", "canceller", "waiter1"}}
+	sc.Roles["waiter1"] = func() {
+		_, _ = m.WaitForConnectednessChange(ctxA, "g", PeersConnectedness{})
+		mu.Lock()
+		gone = true
+		mu.Unlock()
+	}
+	sc.Roles["waiter2"] = func() {
+		for {
+			if _, ok := m.WaitForConnectednessChange(ctxB, "g", cur2); !ok {
+				return
+			}
+		}
+	}
+	sc.Roles["canceller"] = func() {
+		for i := 0; i < 4000 && !(asleep("waiter1") && asleep("waiter2")); i++ {
+			runtime.Gosched()
+			time.Sleep(50 * time.Microsecond)
+		}
+		verifsched.P("c16:canceller:before-cancel#1")
+		cancelA()
+		verifsched.P("c16:canceller:after-cancel#2")
+	}
+	sc.Roles["updater"] = func() {
+		for {
+			mu.Lock()
+			g := gone
+			mu.Unlock()
+			if g {
+				break
+			}
+			runtime.Gosched()
+		}
+		for _, o := range ops {
+			if o.assoc {
+				m.AssociatePeer("g", peers[o.peer])
+			} else {
+				m.UpdateState(peers[o.peer], o.status)
+			}
+		}
+	}
+	sc.OnDeadlock = func(states map[string]verifsched.GState) {
+		rep.Violate("C16/conn/deadlock", "every participant is blocked and at least one of them waits for a mutex: the tracker deadlocked", wit(nil))
+	}
+	sc.AtQuiescence = func(states map[string]verifsched.GState) {
+		if _, parked := states["waiter2"]; !parked {
+			return
+		}
+		var missed []string
+		for p := range assoc {
+			got, has := cur2[p]
+			if !has || got != final[p] {
+				missed = append(missed, fmt.Sprintf("%s: waiter has %v/%v, tracker has %d", string(p), got, has, final[p]))
+			}
+		}
+		sort.Strings(missed)
+		if len(missed) > 0 {
+			rep.Violate("C16/conn/missed-update", "the updater has finished, the remaining waiter is parked, and the tracked state differs from what it last saw (another waiter of the same group had been cancelled before the updates)",
+				wit(map[string]interface{}{"differences": missed}))
+		}
+	}
+	sc.Stop = func() { cancelA(); cancelB() }
+	sc.OnStuckAfterStop = func(states map[string]verifsched.GState) {
+		rep.Violate("C16/conn/cancel-does-not-return", "10 s after cancellation a participant has still not returned", wit(nil))
+	}
+	return sc
+}
+
 func TestVerifC16Conn(t *testing.T) {
 	rep := verifkit.NewReport("C16", "c16-connectedness")
 	defer rep.Finish(t)
-	rep.Rule = "ConnectednessManager on sync-point-instrumented sources: one updater performing a sequence of <= 3 operations over {Associate(g,p1), Associate(g,p2), Update(p1,s), Update(p2,s)}, one or two waiters looping on WaitForConnectednessChange, optional cancellation; " +
+	rep.Rule = "ConnectednessManager on sync-point-instrumented sources: one updater performing a sequence of <= 3 operations over {Associate(g,p1), Associate(g,p2), Update(p1,s), Update(p2,s)}, one or two waiters looping on WaitForConnectednessChange, optional cancellation, and two waiters of which one is cancelled (once both sleep) before the updater starts; " +
 		"each scenario runs un-perturbed, under profile jitter, under pair plans (a role suspended at a sync point until another role passed one of its own) and under seeded jitter; " +
 		"oracles: deadlock detector (all participants blocked, one in a mutex acquire), missed-update detector at quiescence (reference state vs. the parked waiter's map), returned list == changed entries, cancellation returns negative. distinct = (sequence, waiters, plan)"
 	rep.Assume("pair forcing at the instrumented points plus jitter, not all interleavings; the statically checked lock order of the statement is replaced by the observed behaviour under forced orderings")
@@ -261,6 +373,34 @@ func TestVerifC16Conn(t *testing.T) {
 		if rep.ViolationCount() > 12 {
 			break
 		}
+	}
+	// two waiters of one group, one of them cancelled before the updates
+	for si, ops := range [][]c16Op{
+		{{assoc: true, peer: 0}},
+		{{assoc: true, peer: 0}, {peer: 0, status: ConnectednessTypeConnected}},
+		{{peer: 1, status: ConnectednessTypeConnected}, {assoc: true, peer: 1}},
+		{{assoc: true, peer: 0}, {assoc: true, peer: 1}, {peer: 1, status: ConnectednessTypeDisconnected}},
+	} {
+		if rep.ViolationCount() > 12 || (!verifkit.Thorough() && si >= 2) {
+			break
+		}
+		ops := ops
+		st := verifsched.Explore(func(plan string) *verifsched.Scenario { return c16ConnCancelOneScenario(rep, ops, plan) },
+			4, verifkit.Pick(4, 30), uint64(verifkit.Seed())*7+uint64(si), 25*time.Millisecond, verifkit.Pick(40, 400),
+			func(plan string, realised bool, r verifsched.RunResult) {
+				rep.Eval(1)
+				if realised || plan == "off" {
+					rep.Distinct(fmt.Sprintf("cancel-one/%v/%s", ops, plan))
+				}
+				if r.Watchdog {
+					rep.Inconclusivef("watchdog in scenario cancel-one %v under %s", ops, plan)
+				}
+			})
+		total.Runs += st.Runs
+		total.PairPlans += st.PairPlans
+		total.PairPlansRealised += st.PairPlansRealised
+		total.Points += st.Points
+		total.Deadlocks += st.Deadlocks
 	}
 	rep.Count("runs", total.Runs)
 	rep.Count("pair_plans", total.PairPlans)
